@@ -33,7 +33,9 @@ ALPHABETS = {
 UNARY = [("list", "list[{}]"), ("set", "set[{}]"), ("Optional", "typing.Optional[{}]"), ("xSeq", "x.Seq[{}]"),
          ("Annotated", "Annotated[{}, 'm|n']"),
          # metadata given as a call with KEYWORD arguments (pydantic / msgspec style): the keywords are rewritten like any sub-expression
-         ("AnnKw", "Annotated[int, Meta(1, alias={}, n=1)]")]
+         ("AnnKw", "Annotated[int, Meta(1, alias={}, n=1)]"),
+         # metadata built with a binary operator other than `|`: its operands are rewritten like any sub-expression
+         ("AnnOp", "Annotated[int, tag & ({}) & list[str]]")]
 BINARY = [("bitor", "{} | {}"), ("parbitor", "({}) | ({})"), ("dict", "dict[{}, {}]"), ("tuple", "tuple[{}, {}]"),
           ("Callable", "Callable[[{}], {}]")]
 NU, NB = len(UNARY), len(BINARY)
